@@ -10,10 +10,14 @@
 (*                  header the policy accepts with every body, one header of  *)
 (*                  each other policy class (shard-dependent) with bodies     *)
 (*                  none / full / garbage, and the short prefixes             *)
+(*   Mode "seq"   : sequences of 2..SeqLen messages of 8 classes received by   *)
+(*                  ONE server life; every message with the outcome          *)
+(*                  OutcomeAfter gives it behind the earlier ones and whether *)
+(*                  it ends the service (EndsService: never)                  *)
 (*   Mode "route" : pattern subset x question name x qtype x request flags    *)
 EXTENDS Admission, GenBase
 
-CONSTANTS Mode, Shard, NShards
+CONSTANTS Mode, Shard, NShards, SeqLen
 
 VARIABLES v
 
@@ -107,28 +111,49 @@ OutRec(o, h) ==
   [handled |-> o.handled, invalid |-> o.invalid, reply |-> o.reply,
    exp |-> IF o.reply \in {"formerr", "notimp"} THEN ReplyExpect(h, o.reply) ELSE ReplyExpect(h, "formerr")]
 
-PktVectorAt(ph, w) ==
-  LET h == HdrOf(w)
-      pkt == EncHeader(h) \o Body(h, w[7])
-      d == Decodes(h, w[7]) IN
-  [kind |-> "pkt", phase |-> ph, pkt |-> pkt, hdr |-> h, body |-> w[7], policy |-> Policy(h), dec |-> d,
-   ifdec |-> OutRec(OutcomeAt(ph, Len(pkt), h, TRUE), h),
-   ifnot |-> OutRec(OutcomeAt(ph, Len(pkt), h, FALSE), h),
+\* a message with header h and body kind b, received in phase ph behind the messages `pre'
+PktVectorH(ph, pre, h, b) ==
+  LET pkt == EncHeader(h) \o Body(h, b)
+      d == Decodes(h, b) IN
+  [kind |-> "pkt", phase |-> ph, pkt |-> pkt, hdr |-> h, body |-> b, policy |-> Policy(h), dec |-> d,
+   ifdec |-> OutRec(IF pre = <<>> THEN OutcomeAt(ph, Len(pkt), h, TRUE) ELSE OutcomeAfter(pre, Len(pkt), h, TRUE), h),
+   ifnot |-> OutRec(IF pre = <<>> THEN OutcomeAt(ph, Len(pkt), h, FALSE) ELSE OutcomeAfter(pre, Len(pkt), h, FALSE), h),
+   ends |-> EndsService(Len(pkt), h),        \* does the serve call come back because of this message?
    \* the decoded request a handler must be given when the spec is sure the message decodes
-   req |-> [nq |-> IF w[7] = 1 THEN h.qd ELSE 1, nan |-> IF w[7] = 1 THEN h.an ELSE 0,
-            nns |-> IF w[7] = 1 THEN h.ns ELSE 0, nar |-> IF w[7] = 1 THEN h.ar ELSE 0,
+   req |-> [nq |-> IF b = 1 THEN h.qd ELSE 1, nan |-> IF b = 1 THEN h.an ELSE 0,
+            nns |-> IF b = 1 THEN h.ns ELSE 0, nar |-> IF b = 1 THEN h.ar ELSE 0,
             qname |-> QText, qtype |-> 1, qclass |-> 1]]
 
+PktVectorAt(ph, w) == PktVectorH(ph, <<>>, HdrOf(w), w[7])
 PktVector(w) == PktVectorAt("serving", w)
 
-ShortVectorAt(ph, n) ==
-  LET h == HdrOf(<<0, 0, 1, 0, 0, 0, 12>>)
-      pkt == Sub(EncHeader(h) \o Question, 1, n)
-      o == OutcomeAt(ph, n, h, FALSE) IN
+ShortVectorH(ph, pre, h, n) ==
+  LET pkt == Sub(EncHeader(h) \o Question, 1, n) IN
   [kind |-> "pkt", phase |-> ph, pkt |-> pkt, hdr |-> h, body |-> 100 + n, policy |-> "short", dec |-> "no",
-   ifdec |-> OutRec(OutcomeAt(ph, n, h, TRUE), h), ifnot |-> OutRec(o, h),
+   ifdec |-> OutRec(IF pre = <<>> THEN OutcomeAt(ph, n, h, TRUE) ELSE OutcomeAfter(pre, n, h, TRUE), h),
+   ifnot |-> OutRec(IF pre = <<>> THEN OutcomeAt(ph, n, h, FALSE) ELSE OutcomeAfter(pre, n, h, FALSE), h),
+   ends |-> EndsService(n, h),
    req |-> [nq |-> 0, nan |-> 0, nns |-> 0, nar |-> 0, qname |-> <<>>, qtype |-> 0, qclass |-> 0]]
+ShortVectorAt(ph, n) == ShortVectorH(ph, <<>>, HdrOf(<<0, 0, 1, 0, 0, 0, 12>>), n)
 ShortVector(n) == ShortVectorAt("serving", n)
+
+\* Mode "seq": one server life (one socket, one connection) that receives 2..SeqLen messages, each of one of these
+\* classes: <<0, n>> a prefix of n octets, <<1, w>> a message as in mode "pkt".  The k-th message carries the ID 1000 + k.
+SeqAlphabet == << <<0, 0>>, <<0, 5>>, <<0, 11>>,
+                  <<1, <<0, 0, 1, 0, 0, 0, 1>>>>,      \* accepted, decodes: handled
+                  <<1, <<0, 0, 1, 0, 0, 0, 11>>>>,     \* accepted, does not decode: reported + FORMERR
+                  <<1, <<0, 0, 2, 0, 0, 0, 1>>>>,      \* two questions: FORMERR
+                  <<1, <<0, 2, 1, 0, 0, 0, 1>>>>,      \* opcode 2: NOTIMP
+                  <<1, <<1, 0, 1, 0, 0, 0, 1>>>> >>    \* a response: ignored
+SeqHdr(k, a) == [HdrOf(IF a[1] = 0 THEN <<0, 0, 1, 0, 0, 0, 12>> ELSE a[2]) EXCEPT !.id = 1000 + k]
+SeqLenOf(k, a) == IF a[1] = 0 THEN a[2] ELSE Len(EncHeader(SeqHdr(k, a)) \o Body(SeqHdr(k, a), a[2][7]))
+SeqVector(s) ==
+  LET pre(k) == [j \in 1..(k - 1) |-> [len |-> SeqLenOf(j, SeqAlphabet[s[j]])]] IN
+  [kind |-> "seq",
+   msgs |-> [k \in 1..Len(s) |->
+               LET a == SeqAlphabet[s[k]] IN
+               IF a[1] = 0 THEN ShortVectorH("serving", pre(k), SeqHdr(k, a), a[2])
+               ELSE PktVectorH("serving", pre(k), SeqHdr(k, a), a[2][7])]]
 
 \* Mode "phase": v = <<phase, 0, <<n, 0, 0, 0, 0, 0, 0>>>> (a short prefix) or <<phase, 1, w>> (w as in mode "pkt")
 PhaseHeader(w) == \/ Policy(HdrOf(w)) = "accept"
@@ -178,6 +203,8 @@ Init ==
      /\ v \in { <<ph, 0, <<n, 0, 0, 0, 0, 0, 0>>>> : ph \in Phases \ {"serving"}, n \in 0..11 }
           \cup { <<ph, 1, w>> : ph \in Phases \ {"serving"},
                                 w \in { u \in (0..1) \X (0..15) \X (0..3) \X (0..3) \X (0..3) \X (0..3) \X BodyKinds : PhaseHeader(u) } }
+  \/ /\ Mode = "seq"
+     /\ v \in UNION { [1..n -> 1..Len(SeqAlphabet)] : n \in 2..SeqLen }
   \/ /\ Mode = "route"
      /\ v \in { w \in (0..(Pow2(Len(PatSeq)) - 1)) \X (0..Len(NameSeq)) \X (1..Len(QTypes)) \X (1..Len(Flavours)) :
                   (w[1] + w[2] + w[3]) % Len(Flavours) = w[4] - 1 \/ (w[2] = 0 /\ w[3] = 1 /\ w[4] <= 2) }
@@ -187,5 +214,6 @@ Out ==
   CASE Mode = "pkt"   -> Emit(PktVector(v))
     [] Mode = "short" -> Emit(ShortVector(v[1]))
     [] Mode = "phase" -> Emit(PhaseVector(v))
+    [] Mode = "seq"   -> Emit(SeqVector(v))
     [] Mode = "route" -> Emit(RouteVector(v))
 =============================================================================
